@@ -211,6 +211,11 @@ def edit_sites(stmts):
                         sites.append(('retype attribute row %d to %s' % (n, t),
                                       lambda s, n=n, j=j, t=t: s[n][1].__setitem__(j, bp.core_id(t))))
                         break
+            else:
+                # a referential attribute that carries a type of its own (as models of older tool versions do):
+                # its type remains the one of the attribute it refers to
+                sites.append(('retype referential attribute row %d to string' % n,
+                              lambda s, n=n, j=j: s[n][1].__setitem__(j, bp.core_id('string'))))
     # reorder: swap two consecutive attributes of a class
     pi = col_index('O_ATTR', 'PAttr_ID')
     ai = col_index('O_ATTR', 'Attr_ID')
